@@ -1093,10 +1093,10 @@ func (x *Exec) atReturn(st *State, fr *Frame, v *ssa.Return, res Val) {
 	if fr.fn.Name() == "init" {
 		// package initialisation establishes the declared global invariants
 		for i, gi := range x.cs.GlobalInvs {
-			if x.ld.pkgByName[gi.Label] != fr.fn.Pkg.Pkg {
+			if x.ld.pkgByName[gi.Label] != fnPkg(fr.fn) {
 				continue
 			}
-			ge := &Env{x: x, st: st, vars: map[string]Val{}, types: map[string]types.Type{}, pkg: fr.fn.Pkg.Pkg, facts: st}
+			ge := &Env{x: x, st: st, vars: map[string]Val{}, types: map[string]types.Type{}, pkg: fnPkg(fr.fn), facts: st}
 			x.checkClauses(st, ge, []Clause{{Label: fmt.Sprintf("globalinv%d", i), Expr: gi.Expr, Where: gi.Where}}, "post", x.topKey, site, false)
 		}
 	}
